@@ -97,7 +97,7 @@ class BaseGeo(BaseTransform):
     def _process_style_kwargs(style=None, **kwargs):
         # work on a copy: the dictionary of the caller must neither be changed nor stay
         # referenced by the object (it is only applied when the style is first accessed)
-        if isinstance(style, dict):
+        if style is not None:
             style = deepcopy(style)
         if kwargs:
             if style is None:
